@@ -169,10 +169,13 @@ def _entries():
     add("parafac", "init=random,sparsity", lambda rs: D.parafac(c(I.T), 2, n_iter_max=3, init="random", tol=0, sparsity=0.2, random_state=rs), det_parafac)
     add("parafac", "init=svd,rank>dim", lambda rs: D.parafac(c(I.T), 4, n_iter_max=3, init="svd", tol=0, random_state=rs), det_parafac)
     add("parafac", "init=svd,svd=randomized_svd", lambda rs: D.parafac(c(I.T), 2, n_iter_max=3, init="svd", svd="randomized_svd", tol=0, random_state=rs), det_parafac)
+    add("parafac", "init=svd,svd=randomized_svd,mask", lambda rs: D.parafac(c(I.T), 2, n_iter_max=3, init="svd", svd="randomized_svd", tol=0, mask=c(I.mask), svd_mask_repeats=2, random_state=rs), det_parafac)
+    add("parafac", "init=svd,svd=randomized_svd,rank>dim", lambda rs: D.parafac(c(I.T), 4, n_iter_max=3, init="svd", svd="randomized_svd", tol=0, random_state=rs), det_parafac)
     add("CP.fit_transform", "init=random", lambda rs: D.CP(2, n_iter_max=3, init="random", tol=0, random_state=rs).fit_transform(c(I.T)), det_parafac)
     add("non_negative_parafac", "init=random", lambda rs: D.non_negative_parafac(c(I.P), 2, n_iter_max=3, init="random", tol=0, random_state=rs), det_nnparafac)
     add("non_negative_parafac", "init=svd,rank>dim", lambda rs: D.non_negative_parafac(c(I.P), 4, n_iter_max=3, init="svd", tol=0, random_state=rs), det_nnparafac)
     add("non_negative_parafac", "init=svd,svd=randomized_svd", lambda rs: D.non_negative_parafac(c(I.P), 2, n_iter_max=3, init="svd", svd="randomized_svd", tol=0, random_state=rs), det_nnparafac)
+    add("non_negative_parafac", "init=svd,svd=randomized_svd,mask", lambda rs: D.non_negative_parafac(c(I.P), 2, n_iter_max=3, init="svd", svd="randomized_svd", tol=0, mask=c(I.mask), random_state=rs), det_nnparafac)
     add("CP_NN.fit_transform", "init=random", lambda rs: D.CP_NN(2, n_iter_max=3, init="random", tol=0, random_state=rs).fit_transform(c(I.P)), det_nnparafac)
     add("non_negative_parafac_hals", "init=random", lambda rs: D.non_negative_parafac_hals(c(I.P), 2, n_iter_max=1, init="random", tol=0, random_state=rs), det_nnhals, slow=True)
     add("non_negative_parafac_hals", "init=svd,svd=randomized_svd", lambda rs: D.non_negative_parafac_hals(c(I.P), 2, n_iter_max=1, init="svd", svd="randomized_svd", tol=0, random_state=rs), det_nnhals, slow=True)
@@ -180,9 +183,11 @@ def _entries():
     add("constrained_parafac", "init=random", lambda rs: D.constrained_parafac(c(I.T), 2, n_iter_max=2, n_iter_max_inner=2, init="random", non_negative=True, random_state=rs), det_ccp)
     add("constrained_parafac", "init=svd,rank>dim", lambda rs: D.constrained_parafac(c(I.T), 4, n_iter_max=2, n_iter_max_inner=2, init="svd", non_negative=True, random_state=rs), det_ccp)
     add("constrained_parafac", "init=svd,svd=randomized_svd", lambda rs: D.constrained_parafac(c(I.T), 2, n_iter_max=2, n_iter_max_inner=2, init="svd", svd="randomized_svd", non_negative=True, random_state=rs), det_ccp)
+    add("constrained_parafac", "init=svd,svd=randomized_svd,rank>dim", lambda rs: D.constrained_parafac(c(I.T), 4, n_iter_max=2, n_iter_max_inner=2, init="svd", svd="randomized_svd", non_negative=True, random_state=rs), det_ccp)
     add("ConstrainedCP.fit_transform", "init=random", lambda rs: D.ConstrainedCP(2, n_iter_max=2, n_iter_max_inner=2, init="random", l2_reg=0.1, random_state=rs).fit_transform(c(I.T)), det_ccp)
     add("randomised_parafac", "init=random", lambda rs: D.randomised_parafac(c(I.T), 2, 8, n_iter_max=3, init="random", tol=0, random_state=rs), det_parafac)
     add("randomised_parafac", "init=svd", lambda rs: D.randomised_parafac(c(I.T), 2, 8, n_iter_max=3, init="svd", tol=0, random_state=rs), det_parafac)
+    add("randomised_parafac", "init=svd,svd=randomized_svd,n_iter_max=6", lambda rs: D.randomised_parafac(c(I.T), 2, 8, n_iter_max=6, init="svd", svd="randomized_svd", tol=0, max_stagnation=0, random_state=rs), det_parafac)
     add("RandomizedCP.fit_transform", "init=random", lambda rs: D.RandomizedCP(2, 8, n_iter_max=3, init="random", tol=0, verbose=0, random_state=rs).fit_transform(c(I.T)), det_parafac)
     add("sample_khatri_rao", "", lambda rs: D.sample_khatri_rao(c(I.mats), 6, random_state=rs), det_kr)
     add("sample_khatri_rao", "skip_matrix,return_sampled_rows", lambda rs: D.sample_khatri_rao(c(I.mats), 6, skip_matrix=1, return_sampled_rows=True, random_state=rs), det_kr)
@@ -191,9 +196,12 @@ def _entries():
     add("tucker", "init=random", lambda rs: D.tucker(c(I.T), [2, 2, 2], n_iter_max=3, init="random", tol=0, random_state=rs), det_tucker)
     add("tucker", "init=random,mask,errors", lambda rs: D.tucker(c(I.T), [2, 2, 2], n_iter_max=3, init="random", tol=0, mask=c(I.mask), return_errors=True, random_state=rs), det_tucker)
     add("tucker", "init=svd,svd=randomized_svd", lambda rs: D.tucker(c(I.T), [2, 2, 2], n_iter_max=3, init="svd", svd="randomized_svd", tol=0, random_state=rs), det_tucker)
+    add("tucker", "init=svd,svd=randomized_svd,mask", lambda rs: D.tucker(c(I.T), [2, 2, 2], n_iter_max=3, init="svd", svd="randomized_svd", tol=0, mask=c(I.mask), random_state=rs), det_tucker)
+    add("Tucker.fit_transform", "init=svd,svd=randomized_svd", lambda rs: D.Tucker([2, 2, 2], n_iter_max=3, init="svd", svd="randomized_svd", tol=0, random_state=rs).fit_transform(c(I.T)), det_tucker)
     add("Tucker.fit_transform", "init=random", lambda rs: D.Tucker([2, 2, 2], n_iter_max=3, init="random", tol=0, random_state=rs).fit_transform(c(I.T)), det_tucker)
     add("partial_tucker", "init=random", lambda rs: D.partial_tucker(c(I.T), [2, 2], modes=[0, 2], n_iter_max=3, init="random", tol=0, random_state=rs), det_ptucker)
     add("partial_tucker", "init=svd,svd=randomized_svd", lambda rs: D.partial_tucker(c(I.T), [2, 2], modes=[0, 2], n_iter_max=3, init="svd", svd="randomized_svd", tol=0, random_state=rs), det_ptucker)
+    add("partial_tucker", "init=svd,svd=randomized_svd,mask", lambda rs: D.partial_tucker(c(I.T), [2, 2], modes=[0, 2], n_iter_max=3, init="svd", svd="randomized_svd", tol=0, mask=c(I.mask), svd_mask_repeats=2, random_state=rs), det_ptucker)
     add("non_negative_tucker", "init=random", lambda rs: D.non_negative_tucker(c(I.P), [2, 2, 2], n_iter_max=3, init="random", tol=0, random_state=rs), det_nntucker)
     add("non_negative_tucker_hals", "init=random", lambda rs: D.non_negative_tucker_hals(c(I.P), [2, 2, 2], n_iter_max=1, init="random", tol=0, random_state=rs), det_nntuckerh, slow=True)
     add("non_negative_tucker_hals", "init=svd,svd=randomized_svd", lambda rs: D.non_negative_tucker_hals(c(I.P), [2, 2, 2], n_iter_max=1, init="svd", svd="randomized_svd", tol=0, random_state=rs), det_nntuckerh, slow=True)
@@ -208,6 +216,14 @@ def _entries():
     add("parafac2", "init=random,nn_modes", lambda rs: D.parafac2(c(I.pslices), 2, n_iter_max=2, n_iter_parafac=1, init="random", tol=0, nn_modes=[0], linesearch=False, random_state=rs), det_parafac2, slow=True)
     add("parafac2", "init=svd,svd=randomized_svd", lambda rs: D.parafac2(c(I.slices), 2, n_iter_max=3, init="svd", svd="randomized_svd", tol=0, linesearch=False, random_state=rs), det_parafac2)
     add("parafac2", "init=random,svd=randomized_svd", lambda rs: D.parafac2(c(I.slices), 2, n_iter_max=3, init="random", svd="randomized_svd", tol=0, linesearch=False, random_state=rs), det_parafac2)
+    # randomness routed through a second site: randomized SVD inside the projections (every iteration) and inside the
+    # line search (even iterations > 5, so the budget must reach iteration 6 and 8 and tol must not stop earlier)
+    for init in ("random", "svd"):
+        add("parafac2", "init=%s,svd=randomized_svd,linesearch,n_iter_max=9" % init,
+            lambda rs, init=init: D.parafac2(c(I.slices), 2, n_iter_max=9, init=init, svd="randomized_svd", tol=1e-30, linesearch=True, return_errors=True, random_state=rs), det_parafac2, slow=True)
+        add("parafac2", "init=%s,svd=randomized_svd,linesearch,nn_modes,n_iter_max=9" % init,
+            lambda rs, init=init: D.parafac2(c(I.pslices), 2, n_iter_max=9, n_iter_parafac=1, init=init, svd="randomized_svd", tol=1e-30, nn_modes=[0, 2], linesearch=True, random_state=rs), det_parafac2, slow=True)
+    add("Parafac2.fit_transform", "init=svd,svd=randomized_svd,linesearch,n_iter_max=9", lambda rs: D.Parafac2(2, n_iter_max=9, init="svd", svd="randomized_svd", tol=1e-30, linesearch=True, return_errors=True, random_state=rs).fit_transform(c(I.slices)), det_parafac2, slow=True)
     add("Parafac2.fit_transform", "init=random", lambda rs: D.Parafac2(2, n_iter_max=3, init="random", tol=0, linesearch=False, return_errors=True, random_state=rs).fit_transform(c(I.slices)), det_parafac2)
 
     # ---- tensor ring / tensor train
@@ -219,9 +235,14 @@ def _entries():
     add("TensorRingALSSampled.fit_transform", "", lambda rs: D.TensorRingALSSampled([2, 2, 2, 2], 10, n_iter_max=3, tol=0, random_state=rs).fit_transform(c(I.T)), det_tr)
     add("tensor_train_cross", "", lambda rs: tensor_train_cross(c(I.P), [1, 2, 2, 1], tol=1e-4, n_iter_max=4, random_state=rs), det_tt)
 
+    # many requested column indices out of few possible ones: the collision loop (re-draws) is certainly entered
+    add("tensor_train_cross", "rank=1,3,4,1(index collisions)", lambda rs: tensor_train_cross(c(I.P), [1, 3, 4, 1], tol=1e-4, n_iter_max=4, random_state=rs), det_tt)
+    add("tensor_ring_als_sampled", "n_iter_max=6,n_samples per mode", lambda rs: D.tensor_ring_als_sampled(c(I.T), [2, 2, 2, 2], [6, 8, 7], n_iter_max=6, tol=0, random_state=rs), det_tr)
+
     # ---- randomized SVD
     add("randomized_svd", "", lambda rs: randomized_svd(c(I.M), n_eigenvecs=3, random_state=rs), det_tsvd)
     add("randomized_svd", "tall", lambda rs: randomized_svd(c(I.Mtall), n_eigenvecs=2, n_oversamples=1, random_state=rs), det_tsvd)
+    add("randomized_svd", "n_iter=0,n_eigenvecs=None", lambda rs: randomized_svd(c(I.M), n_iter=0, random_state=rs), det_tsvd)
     add("randomized_range_finder", "", lambda rs: randomized_range_finder(c(I.M), 3, random_state=rs), det_tsvd)
     add("svd_interface", "method=randomized_svd", lambda rs: svd_interface(c(I.M), method="randomized_svd", n_eigenvecs=3, random_state=rs), det_svdi)
     add("svd_interface", "method=randomized_svd,mask,non_negative", lambda rs: svd_interface(np.abs(I.M), method="randomized_svd", n_eigenvecs=3, mask=c(I.mask2), non_negative=True, random_state=rs), det_symeig)
